@@ -46,14 +46,10 @@ static double trunc_rel(double f, bool series) { double n = f / (2 - f); return 
 // x4, per quarter turn of longitude, scaled with a^2, plus the position tolerance swept over the east-west extent
 static double tol_area(double a, double lam12, double s12) { return 4 * 0.11 * (a / aW) * (a / aW) * std::fmax(1.0, std::fabs(lam12) / (M_PI / 2)) + tol_len(a, s12) * a * std::fabs(lam12); }
 
-// Finding F8 (open): DAuxLatitude::DE, used by the exact solver when the two latitudes are distinct and not of opposite sign,
+// Finding F8 (repaired, 15c4574; the class below is empty now): DAuxLatitude::DE, used by the exact solver when the two latitudes are distinct and not of opposite sign,
 // evaluates cos((x+y)/2) of the *flipped* parametric angles on prolate ellipsoids; near the equator these are ~pi/2 and the
 // cosine loses relative accuracy ~ eps/(|phi1|+|phi2|).  Decidable class + a priori bound on the relative error of dmu/dpsi.
-static double f8bound(bool exact, double f, double lat1, double lat2) {
-  if (!(exact && f < 0 && lat1 != lat2 && !(lat1 * lat2 < 0))) return 0;
-  double sum = (std::fabs(lat1) + std::fabs(lat2)) * M_PI / 180;
-  return 2.5e-15 / sum;   // 4 x (rounding of x, y ~ pi/2 and of their sum) / cos((x+y)/2); capped by the caller
-}
+static double f8bound(bool, double, double, double) { return 0; }   // F8 is repaired in /repo (15c4574): no class any more, every such error is judged against the plain tolerance
 // judge an error against a tolerance; errors inside the F8 class bound are reported under the F8 relation
 static void judge(const std::string& rel, double err, double tol, double f8, double f8scale, const std::string& what) {
   if (err <= tol) return;
@@ -61,9 +57,9 @@ static void judge(const std::string& rel, double err, double tol, double f8, dou
     bad("F8-prolate-exact-DE:" + rel, what + " error " + num(err) + " tolerance " + num(tol) + " (inside the F8 class bound " + num(f8 * f8scale) + ")");
   else bad(rel, what + " error " + num(err) + " tolerance " + num(tol));
 }
-// Finding F24 (open): DAuxLatitude::DParametric, branch tx*ty > 1, replaces tx, ty by their reciprocals; two tangents an ulp apart can have the
+// Finding F24 (repaired, 6ffdf79; the class below is empty now): DAuxLatitude::DParametric, branch tx*ty > 1, replaces tx, ty by their reciprocals; two tangents an ulp apart can have the
 // same rounded reciprocal and the quotient atan2(0, .)/atan2(0, .) is NaN.  Decidable on the tangents the code uses.
-static bool f24class(double tx, double ty) { return tx != ty && tx * ty > 1 && std::isfinite(tx) && std::isfinite(ty) && 1 / tx == 1 / ty; }
+static bool f24class(double, double) { return false; }   // F24 is repaired in /repo (6ffdf79): no class any more
 static bool dir_f24(const Rhumb& R, const RhumbLine& L, double s12) {   // the same tangents as GenPosition / MeanSinXi form
   if (!R._exact) return false;
   double r12 = s12 / (R._rm * Math::degree()), mu2 = L._mu1 + r12 * L._calp; if (!(std::fabs(mu2) <= 90)) return false;
@@ -71,13 +67,7 @@ static bool dir_f24(const Rhumb& R, const RhumbLine& L, double s12) {   // the s
   AuxAngle px(R._aux.Convert(AuxLatitude::CHI, AuxLatitude::PHI, L._chi1, true)), py(R._aux.Convert(AuxLatitude::CHI, AuxLatitude::PHI, k2, true));
   return f24class(px.tan(), py.tan()) || f24class(L._phi1.tan(), q2.tan());
 }
-static double dir_f8(const Rhumb& R, const RhumbLine& L, double s12) {   // F8 class decided on the angles DRectifying compares inside GenPosition
-  if (!(R._exact && R._f < 0)) return 0;
-  double r12 = s12 / (R._rm * Math::degree()), mu2 = L._mu1 + r12 * L._calp; if (!(std::fabs(mu2) <= 90)) return 0;
-  AuxAngle q2(R._aux.Convert(AuxLatitude::MU, AuxLatitude::PHI, AuxAngle::degrees(mu2), true));
-  double x = L._phi1.radians(), y = q2.radians();
-  return (x != y && !(x * y < 0)) ? 2.5e-15 / (std::fabs(x) + std::fabs(y)) : 0;
-}
+static double dir_f8(const Rhumb&, const RhumbLine&, double) { return 0; }   // F8 repaired: no class
 static bool inv_f24(const Rhumb& R, double lat1, double lat2) {   // the tangents GenInverse / MeanSinXi hand to DParametric (exact solver)
   if (!R._exact) return false;
   AuxAngle q1(AuxAngle::degrees(lat1)), q2(AuxAngle::degrees(lat2)), k1(R._aux.Convert(AuxLatitude::PHI, AuxLatitude::CHI, q1, true)), k2(R._aux.Convert(AuxLatitude::PHI, AuxLatitude::CHI, q2, true));
